@@ -379,3 +379,127 @@ def jaxfield_operators(ctx):
 
 
 UNITS["jaxfield/operators"] = jaxfield_operators
+def adbook(ctx):
+    """AD-BOOK: NonlinearForm._assemble (Mode I: Nbfun, nt, nq, N symbolic).  jax.linearize is an axiom: linearize(f, x) = (f(x), U -> D f(x)[U]); the unit's stand-in
+    for it evaluates f once (recording which fields and which parameters the integrand receives) and returns uninterpreted residual / directional-derivative
+    integrands indexed by the test and trial function.
+      JAC     rows[(j*Nb+i)*nt+k] == dofs[i,k] (test), cols == dofs[j,k] (trial), data == sum_q D F_i(x)[phi_j][k,q]*dx[k,q]
+      RHS     rows1[i*nt+k] == dofs[i,k], data1 == - sum_q F_i(x)[k,q]*dx[k,q]
+      PARAMS  the w handed to the form is default_parameters() of THE BASIS OF THIS CALL overlaid with the kwargs normalised against it -- also on a second call
+              of the same form object with another basis (no state kept on the form)"""
+    install_fake_jax()
+    import skfem.autodiff as AD
+    from skv import sarr
+    from skv.sarr import SArr
+    C = tm.const
+    fn = ctx.function(AD.NonlinearForm._assemble)
+
+    class Fld:
+        def __init__(self, tag, idx=None):
+            self.tag, self.idx = tag, idx
+            self.astuple = (self,)
+
+    class Seq:
+        def __init__(self, tag):
+            self.tag = tag
+
+        def __getitem__(self, j):
+            return (Fld(self.tag, sarr._t(j)),)
+
+    def make_basis(c, tag, nt, nq):
+        class B:
+            pass
+        b = B()
+        b.tag, b.nelems = tag, nt
+        b.Nbfun, b.N = c.size("Nb_" + tag, 1), c.size("N_" + tag, 1)
+        b.element_dofs = SArr.input("dofs_" + tag, (b.Nbfun, nt), lo=0, hi=b.N)
+        b.dx = SArr.input("dx_" + tag, (nt, nq), tm.REAL)
+        b.basis = Seq(tag)
+        b.default_parameters = lambda: {"x": Fld("default-x-" + tag), "h": Fld("default-h-" + tag)}
+        b.zeros = lambda: ("zeros", tag)
+        b.interpolate = lambda w: Fld("interp-%s-%s" % (tag, id(w)))
+        return b
+    calls = []
+
+    def linearize(fun, x):
+        y = fun(x)
+        rec = calls[-1]
+
+        def DF(U):
+            ju = U[0].value.idx
+            return SArr(rec["shape"], lambda idx, iv=rec["iv"], ju=ju, t_=rec["tag"]: tm.app("jac_" + t_, tm.REAL, iv, ju, *idx), tm.REAL)
+        return y, DF
+    dims = {}
+
+    def unwrap(val):
+        val = getattr(val, "value", val)
+        if isinstance(val, np.ndarray) and val.dtype == object and val.ndim == 0:
+            val = val.item()
+        return val
+
+    def form(*args):
+        w = args[-1]
+        u, v = args[0], args[1]
+        tag = v.value.tag
+        nt_, nq_ = dims[tag]
+        calls.append(dict(w={k: unwrap(val) for k, val in dict(w).items()}, u=unwrap(u), iv=v.value.idx, tag=tag, shape=(sarr._dim(nt_), sarr._dim(nq_))))
+        return SArr((sarr._dim(nt_), sarr._dim(nq_)), lambda idx, iv=v.value.idx, t_=tag: tm.app("res_" + t_, tm.REAL, iv, *idx), tm.REAL)
+    F = AD.NonlinearForm(form)
+    xvec = np.arange(3.0)
+    for tag, pre in (("a", "adbook/first-call"), ("b", "adbook/second-call-same-form-other-basis")):
+        with sarr.index_context() as c:
+            nt, nq = c.size("nt", 1), c.size("nq", 1)
+            dims[tag] = (nt, nq)
+            b = make_basis(c, tag, nt, nq)
+            del calls[:]
+            saved = AD.linearize
+            AD.linearize = linearize
+            try:
+                with sarr.mode_i([AD], extra_globals=dict(jnp=sarr.NPModel())):
+                    mat, vec = F._assemble(b, x=xvec, s=2.5)
+            finally:
+                AD.linearize = saved
+            cl = list(calls)
+            (ind, data, shape, lshape), (ind1, data1, shape1, lshape1) = mat, vec
+            Nb, NT = b.Nbfun.t, nt.t
+            j, i, k = c.skolem("j", 0, Nb), c.skolem("i", 0, Nb), c.skolem("k", 0, NT)
+            p_ = tm.add(tm.mul(tm.add(tm.mul(j.t, Nb), i.t), NT), k.t)
+            sarr.hint_radix((Nb, Nb, NT), (j.t, i.t, k.t))
+            reads = [ind.get((C(0), p_)), ind.get((C(1), p_)), data.get((p_,))]
+            hy = c.all_hyps()
+            # hints as for BilinearForm._assemble (C01): the last-writer witnesses of position p are the iteration (j, i)
+            from props.C01 import lemma_block_unique, lemma_pair_unique
+            lw = sorted({n for t_ in reads[:2] for n in tm.subterms(t_) if n.op == "app" and str(n.args[0]).startswith("lw!")}, key=lambda n: n.args[0])
+            for a_ in range(0, len(lw) - 1, 2):
+                Wi, Wj = lw[a_], lw[a_ + 1]
+                for X_, Y_ in ((Wi, Wj), (Wj, Wi)):
+                    hy.append(lemma_block_unique(NT, tm.add(tm.mul(Nb, X_), Y_), tm.add(tm.mul(Nb, j.t), i.t), k.t))
+                    hy.append(lemma_block_unique(NT, tm.add(tm.mul(X_, Nb), Y_), tm.add(tm.mul(j.t, Nb), i.t), k.t))
+                    hy.append(lemma_pair_unique(Nb, X_, Y_, j.t, i.t))
+            ctx.fact(pre + "/shapes", fn, shape[0] is b.N and shape[1] is b.N and shape1[0] is b.N and lshape == (b.Nbfun, b.Nbfun), "tensor shapes", backend="symbolic-execution")
+            okw = bool(cl) and all(set(r["w"]) == {"x", "h", "s"} and getattr(r["w"]["x"], "tag", None) == "default-x-" + tag and getattr(r["w"]["h"], "tag", None) == "default-h-" + tag
+                                   and r["w"]["s"] == 2.5 and r["tag"] == tag for r in cl)
+            ctx.fact(pre + "/params", fn, okw, "the integrand received w = %s" % ({k_: getattr(v_, "tag", v_) for k_, v_ in cl[0]["w"].items()} if cl else None),
+                     clause="w == default_parameters() of the basis of THIS call (as JaxDiscreteField) overlaid with the normalised kwargs; nothing is remembered on the form object",
+                     backend="symbolic-execution", replay=dict(kind="adform"))
+            oku = bool(cl) and all(str(getattr(r["u"], "tag", "")).startswith("interp-%s-" % tag) for r in cl)
+            ctx.fact(pre + "/linearisation-point", fn, oku, "the linearisation point must be basis.interpolate(x) of the basis of this call", backend="symbolic-execution")
+            try:
+                ctx.prove(pre + "/jacobian/rows", fn, tm.eq(reads[0], b.element_dofs.get((i.t, k.t))), hyps=hy, clause="rows[(j*Nb+i)*nt+k] == element_dofs[i,k]  (test function)")
+                ctx.prove(pre + "/jacobian/cols", fn, tm.eq(reads[1], b.element_dofs.get((j.t, k.t))), hyps=hy, clause="cols[(j*Nb+i)*nt+k] == element_dofs[j,k]  (trial function)")
+                q = SArr((sarr._dim(nt), sarr._dim(nq)), lambda idx, iv=i.t, ju=j.t, t_=tag: tm.app("jac_" + t_, tm.REAL, iv, ju, *idx), tm.REAL)
+                spec = sarr.np_sum(q * b.dx, axis=1).get((k.t,))
+                ctx.prove(pre + "/jacobian/data", fn, tm.eq(reads[2], spec), hyps=hy, clause="data[(j*Nb+i)*nt+k] == sum_q D F_i(x)[phi_j][k,q] * dx[k,q]")
+                p1 = tm.add(tm.mul(i.t, NT), k.t)
+                r1 = [ind1.get((C(0), p1)), data1.get((p1,))]
+                hy1 = c.all_hyps()
+                ctx.prove(pre + "/residual/rows", fn, tm.eq(r1[0], b.element_dofs.get((i.t, k.t))), hyps=hy1, clause="rows1[i*nt+k] == element_dofs[i,k]")
+                qr = SArr((sarr._dim(nt), sarr._dim(nq)), lambda idx, iv=i.t, t_=tag: tm.app("res_" + t_, tm.REAL, iv, *idx), tm.REAL)
+                ctx.prove(pre + "/residual/data", fn, tm.eq(r1[1], tm.neg(sarr.np_sum(qr * b.dx, axis=1).get((k.t,)))), hyps=hy1, clause="data1[i*nt+k] == - sum_q F_i(x)[k,q] * dx[k,q]")
+            except tm.Unsupported as ex:
+                ctx.unsupported(pre + "/bookkeeping", fn, str(ex))
+
+
+UNITS["adbook"] = adbook
+
+
